@@ -481,8 +481,28 @@ fn build_engine(list: &[&SelInfo], site_exceptions: &[&str]) -> Result<Engine, S
     catch(|| vh::net::engine(&refs, false, false))
 }
 
+thread_local! {
+    /// the list as loaded into the engine under exploration, when a rule occurs in it more than once
+    static LOADED: std::cell::RefCell<Option<Vec<String>>> = const { std::cell::RefCell::new(None) };
+}
+
 fn list_json(list: &[&SelInfo]) -> Value {
+    if let Some(v) = LOADED.with(|c| c.borrow().clone()) {
+        if list.iter().all(|s| v.contains(&s.text)) && v.iter().all(|t| list.iter().any(|s| &s.text == t)) {
+            return json!(v);
+        }
+    }
     json!(list.iter().map(|s| s.text.clone()).collect::<Vec<_>>())
+}
+
+fn dedup_list<'a>(list: &[&'a SelInfo]) -> Vec<&'a SelInfo> {
+    let mut uniq: Vec<&SelInfo> = vec![];
+    for s in list {
+        if !uniq.iter().any(|x| x.text == s.text) {
+            uniq.push(s);
+        }
+    }
+    uniq
 }
 
 fn list_size(list: &[&SelInfo]) -> u64 {
@@ -849,17 +869,22 @@ fn relative_exceptions(list: &[&SelInfo], fixed: &[&str]) -> Vec<String> {
     v
 }
 
-fn explore_list(u: &Universe, list: &[&SelInfo], l: &mut Local) {
-    let engine = match build_engine(list, &[]) {
+fn explore_list(u: &Universe, list_as_loaded: &[&SelInfo], l: &mut Local) {
+    // the engine is built from the list as given (a rule may occur more than once); the reference
+    // works on the set of its rules
+    let uniq = dedup_list(list_as_loaded);
+    LOADED.with(|c| *c.borrow_mut() = if uniq.len() != list_as_loaded.len() { Some(list_as_loaded.iter().map(|s| s.text.clone()).collect()) } else { None });
+    let engine = match build_engine(list_as_loaded, &[]) {
         Ok(e) => e,
         Err(loc) => {
-            report(l, format!("c17.build.panic@{}", loc), list_size(list), || {
-                (format!("engine construction panicked at {}", loc), json!({"kind":"routes","list":list_json(list)}))
+            report(l, format!("c17.build.panic@{}", loc), list_size(list_as_loaded), || {
+                (format!("engine construction panicked at {}", loc), json!({"kind":"routes","list":list_json(list_as_loaded)}))
             });
             return;
         }
     };
     l.states += 1;
+    let list: &[&SelInfo] = &uniq;
     check_routes(u, &engine, list, l);
 
     let mut t = Tally::default();
@@ -1045,7 +1070,7 @@ fn replay(case: &Value, l: &mut Local) {
     match kind {
         "routes" => {
             if let Ok(engine) = build_engine(&list, &[]) {
-                check_routes(&u, &engine, &list, l);
+                check_routes(&u, &engine, &dedup_list(&list), l);
             }
         }
         "site" => {
@@ -1077,7 +1102,7 @@ fn replay(case: &Value, l: &mut Local) {
                     }
                 }
             } else if let Ok(engine) = build_engine(&list, &[]) {
-                eval_lookup(&engine, &list, &c, &i, &exc, &exc, "replay", &mut t, l);
+                eval_lookup(&engine, &dedup_list(&list), &c, &i, &exc, &exc, "replay", &mut t, l);
             }
             t.flush(l);
         }
@@ -1139,6 +1164,23 @@ fn check(ctx: &Ctx) -> i32 {
                 "expected_hide_selectors": misc_of(&list),
             }));
         }
+        explore_list(&u, &list, l);
+    });
+
+    // the same rule more than once in a list (several lists ship the same rule): [A,B,A], [A,B,B],
+    // [A,A,B] for every ordered pair of selectors; the expected answers are those of {A,B}
+    ctx.bound("repeated_rule_lists", (n * n * 3) as u64);
+    ctx.par_range("repeated-rules", (n * n * 3) as u64, 8, |i, l| {
+        let (a, b, shape) = ((i as usize / 3) / n, (i as usize / 3) % n, i % 3);
+        if a == b {
+            return;
+        }
+        let (sa, sb) = (&u.sels[a], &u.sels[b]);
+        let list: Vec<&SelInfo> = match shape {
+            0 => vec![sa, sb, sa],
+            1 => vec![sa, sb, sb],
+            _ => vec![sa, sa, sb],
+        };
         explore_list(&u, &list, l);
     });
 
